@@ -33,6 +33,18 @@ def add_mentions(rng, files):
     return out
 
 
+def add_tag_lookalikes(rng, files):
+    """page-level tags whose names also occur in the bodies inside links (`#g1` inherited, `[#g1]` / `[@r1]` in a note):
+    the link is no tag word, so the moved note still has to carry the inherited tag explicitly"""
+    out = {}
+    for rel, text in files.items():
+        lines = text.split("\n")
+        if lines and lines[0].startswith("# ") and rng.random() < 0.5:
+            lines[0] += " " + " ".join(rng.sample(["#g1", "#g2", "#G3", "@r1", "@r2", "+g1", "%r2"], rng.randint(1, 3)))
+        out[rel] = "\n".join(lines)
+    return out
+
+
 def add_extended_zids(rng, files):
     """a note whose ZID extends another note's ZID by one character (3-character suffix), placed *above* it"""
     out = {}
@@ -174,7 +186,7 @@ def one_dir(ctx, res, rng, d):
     cfg = Z.write_config(ctx.tmp / "cfg.yml", template_pattern_map={r"^tmpl/(?P<name>[a-z]+)\.zo$": "made.zot"})
     model_reqs = []
     zdir.mkdir(parents=True)
-    files = add_extended_zids(rng, add_mentions(rng, G.gen_dir(rng, npages=(2, 4), with_zid=True, sections=True, date_prob=0.1, far_dates=False)))
+    files = add_extended_zids(rng, add_mentions(rng, add_tag_lookalikes(rng, G.gen_dir(rng, npages=(2, 4), with_zid=True, sections=True, date_prob=0.1, far_dates=False))))
     G.write_dir(zdir, files)
     (zdir / "made.zot").write_text("# TEMPLATE made\n\n## {{ name }}\n")
     Z.clear_engine_cache()
